@@ -46,3 +46,4 @@ def run(ctx, pids, quick_edges=14000, walks=(60, 2500), genq=True):
         ctx.replay(behs, pre, observe, ordered=node_check.tick_unordered, label="edges_" + pid)
         w = ctx.gen_walks("MCPdo", "%s_walk.cfg" % pid, num=walks[0] if q else walks[1], depth=45, timeout=2500)
         ctx.replay(w, pre, observe, ordered=node_check.tick_unordered, label="walks_" + pid)
+        node_check.node_id_variant(ctx, "MCPdo", pid, pre, observe, node_check.tick_unordered, walks, 45, 3000)
